@@ -791,7 +791,8 @@ struct Runner {
 				const int src = k, dst = 1 - k;
 				const auto& prev = inst(src).previousTransitions();
 				if (prev.count() == 0 || !active(inst(dst))) { --n; if (s.prng.chance(50)) ++n; continue; }
-				if (s.prng.chance(20)) {
+				// (not in common-subset mode: the length depends on SUBSTITUTION_LIMIT, which a compared build may change)
+				if (!envStr("VH_SKIP") && s.prng.chance(20)) {
 					// an over-long but valid history (C11): the authority's list repeated until it exceeds the capacity
 					// of previousTransitions (COMPO_COUNT x SUBSTITUTION_LIMIT); the library keeps the first `capacity`
 					using Tr = typename std::decay<decltype(prev[0])>::type;
